@@ -12,7 +12,7 @@ import (
 // C14: function call protocol. Every occurrence of a function in a path uses its own alias
 // (f1, g2, ...), so the recorded call log can be compared per occurrence.
 
-var c14Base = []string{"f", "id", "e", "g", "cnt", "eg", "gre"}
+var c14Base = []string{"f", "id", "e", "g", "cnt", "eg", "gre", "nl"}
 
 // funcSeqs lists all sequences of 1..maxLen functions; the k-th function carries suffix k.
 func funcSeqs(maxLen int) [][]string {
@@ -232,7 +232,7 @@ func init() {
 			"inside filters only single-atom filters are used, so short-circuit evaluation of && / || cannot hide a call; the relative order of calls of different occurrences is not compared (the property does not fix it)",
 		},
 		Bounds: map[string]string{
-			"quick":    "navigation prefixes of <=2 steps over the 16-step alphabet followed by every sequence of 1..2 functions (1..3 directly after $) out of 7; function chains of 1..2 inside filter operands (12 operand paths, three of them with a nested filter that refers to '$', x 3 filter forms) after 5 prefixes; every document of <=4 nodes",
+			"quick":    "navigation prefixes of <=2 steps over the 16-step alphabet followed by every sequence of 1..2 functions (1..3 directly after $) out of 8 (doubling, identity, failing, nil-returning filter functions; list, count, failing, re-entrant aggregates); function chains of 1..2 inside filter operands (12 operand paths, three of them with a nested filter that refers to '$', x 3 filter forms) after 5 prefixes; every document of <=4 nodes",
 			"thorough": "prefixes of <=2 steps with 1..3 functions, 3 steps with one function; operand chains as in quick; every document of <=5 nodes",
 		},
 		New: newC14,
